@@ -9,7 +9,7 @@ seeds=("$@")
 if [ ${#seeds[@]} -eq 0 ]; then for d in seeded/C*/; do seeds+=("$(basename $d)"); done; fi
 for s in "${seeds[@]}"; do
   [ -f seeded/$s/patch.diff ] || continue
-  git -C /repo apply --check seeded/$s/patch.diff 2>/dev/null || { echo "$s: SKIPPED (patch does not apply to HEAD)"; continue; }
+  git -C /repo apply --check /verif/seeded/$s/patch.diff 2>/dev/null || { echo "$s: SKIPPED (patch does not apply to HEAD)"; continue; }
   prop=$(python3 -c "import json;print(json.load(open('seeded/$s/meta.json')).get('property','${s:0:3}'))" 2>/dev/null || echo ${s:0:3})
   find /verif/work -maxdepth 1 -type d -mmin +45 -regex '.*/[0-9a-f]+' -newermt '2000-01-01' 2>/dev/null | while read d; do
     [ "$(basename $d)" = "$(cat /verif/work/.clean_hash 2>/dev/null)" ] || rm -rf "$d"
